@@ -44,6 +44,8 @@ LEVEL = {
          "argument alphabet of MC_Grammar.tla; ms / half-percent grids; compile-time rejection is rustc's verdict", TECH % ("", "")),
  "C16": ("model_checking", "6 C16", "TLC generates animator! blocks, their Reading as an Animator.tla configuration and a 30-step history with predicted observations; the real macro compiles every block; macro-built animator == builder twin bit for bit after every operation, == the spec's predictions.",
          "alphabet of MC_AnimGrammar.tla; blocks inside C04's domain", TECH % ("", "")),
+ "C17": ("model_checking", "6 C17", "TLC generates struct shapes with the predicted animated set and Timeline.tla evaluations; the real derive compiles every shape and the generated API is exercised on the (remote) target: values per C01 with the field's kind, untouched excluded fields, keyframe_from copy set, metadata; setter existence by rustc.",
+         "shape family of MC_Shapes.tla (<= 6 fields, 6 numeric types); generics unsupported by the derive", TECH % ("", "")),
 }
 NA = {}
 for i in range(1, 21):
